@@ -17,6 +17,27 @@ own marker, L's unmarked files under three directory names no bundled library
 has, and L's unmarked files under the name of the next bundled library
 (names rotated cyclically).  Every marker must be visible, and apart from the
 markers every dump must be identical to the anchor.
+
+Wave 4, two more families (alphabets in domains/w4_c14):
+
+* Evaluation entry points.  "Evaluates to finite plain numbers for each
+  property it has data for" was walked through get_HoRT / get_SoR / get_CpoR
+  only.  In the by-name process of every library every group is now also
+  evaluated through the five other entry points of its correlation (get_GoRT,
+  get_H, get_S, get_G, get_Cp) on the whole temperature grid in their default
+  call shape, and through every call shape of all eight entry points at one
+  temperature: 16 unit strings (those of the gas-constant table) x 6
+  presentations of the optional S_elements argument (absent; keyword None /
+  False / True; positional None / True).
+
+* Customise-and-load-again histories.  Every one of the 27 processes went on
+  to nothing after its one load, so a loader that hands out state shared with
+  an earlier load could not be seen.  Each process now continues: the library
+  object it got is customised through every route a caller has (11 group-level
+  kinds dealt out over all its groups, 8 library-level kinds on the scheme,
+  the contents and the uncertainty block), then the same file is loaded again
+  by name and by explicit path; both must show exactly what the first load
+  showed before it was customised.
 """
 import json
 import math
@@ -31,11 +52,14 @@ from ..models import thermoref as tr
 from ..models import ringref
 from ..domains import libs
 from ..domains import w3_c14 as w3
+from ..domains import w4_c14 as w4
 from .. import VERIF, REPO
 
 TWO_HASH_SEEDS = ('quick', 'thorough')   # tiers in which the space is walked under a second PYTHONHASHSEED
 LEVEL = 'exploration'
 WAYS = ['name', 'path', 'relocated']
+CONTENT_KEYS = ('groups', 'n_patterns', 'n_descriptors', 'pattern_names',
+                'remaps', 'uq')
 BOUND = {t: '9 libraries x 3 ways of locating them (27 fresh processes) x every '
             'group x every property with data x the temperature grid of its '
             'range; every scheme fragment; every remap; every uncertainty entry; '
@@ -43,14 +67,27 @@ BOUND = {t: '9 libraries x 3 ways of locating them (27 fresh processes) x every 
             'that differs from the bundled one, x 7 loads each (bundled file by '
             'path; all-files-marked copy by name and by path; 3 fresh directory '
             'names; 1 rotated bundled name) x every file read (2 to 9 data '
-            'files + scheme.yaml per library, one marker each) x 6 content keys'
+            'files + scheme.yaml per library, one marker each) x 6 content keys; '
+            'wave 4: in the 9 by-name processes every group x the 5 further '
+            'entry points (get_GoRT, get_H, get_S, get_G, get_Cp; default call '
+            'shape) x the same temperature grid, and x all 8 entry points x 16 '
+            'unit strings x 6 presentations of S_elements (where the entry '
+            'point takes them) at one temperature (T_ref when the grid holds '
+            'it, else the lowest grid temperature); in each of the 27 '
+            'processes the history load - customise (every group with data by '
+            'one of 11 kinds, 8 library-level kinds) - load by name - load by '
+            'explicit path x 6 content keys'
          for t in ('quick', 'thorough')}
 RULE = ('the space is finite and enumerated completely; a case is one (library, '
-        'way, group, property, temperature) evaluation, one fragment, one remap '
-        'rule or one uncertainty entry; in the differing-relocated-tree family a '
-        'case is one load, one marker of one file, or one content key of one '
-        'load compared with the bundled contents; non-trivial = everything '
-        'except the plain by-name evaluation of a group with a complete record')
+        'way, group, entry point, call shape, temperature) evaluation, one '
+        'fragment, one remap rule or one uncertainty entry; in the '
+        'differing-relocated-tree family a case is one load, one marker of one '
+        'file, or one content key of one load compared with the bundled '
+        'contents; in the customise-and-load-again family a case is one '
+        'customisation (did it change the object it was applied to), one later '
+        'load, or one content key of a later load compared with the first load '
+        'of that process; non-trivial = everything except the by-name '
+        'evaluation of a group through get_HoRT / get_SoR / get_CpoR')
 ASSUMPTIONS = ['positive semi-definite: smallest eigenvalue >= -1e-9 x largest, '
                'by a cyclic Jacobi iteration written for this check',
                'a fragment is "readable" when the scheme loads and the '
@@ -65,19 +102,49 @@ ASSUMPTIONS = ['positive semi-definite: smallest eigenvalue >= -1e-9 x largest, 
                'run in one fixed order (bundled path first); other orders are '
                'not enumerated',
                'a library name that is ABSENT from the relocated tree is not '
-               'loaded: the property does not say whether that must fail']
+               'loaded: the property does not say whether that must fail',
+               'the unit strings offered to get_H / get_S / get_G / get_Cp are '
+               'the 16 of the gas-constant table they look their factor up in '
+               '(get_H / get_G: without the trailing /K); only "finite plain '
+               'number" is judged there, the value itself belongs to C07; the '
+               'further entry points and call shapes are walked where the '
+               'library is found by name, the two other ways keep the three '
+               'plain entry points',
+               'customise-and-load-again: the group-level kinds are dealt out '
+               'over the groups in sorted-name order (group i gets kind i mod '
+               '11, or the next kind that applies to it), so every group is '
+               'customised by one kind and every kind reaches at least two '
+               'groups of every library, but not every (group, kind) pair is '
+               'walked; all customisations are applied before the two later '
+               'loads (single customisations in isolation are not enumerated); '
+               'a customisation that leaves its object unchanged is counted as '
+               'history:customisation-without-effect and noted, not judged '
+               '(none occurs on the shipped data)']
 MANIFEST = dict(
     technique='complete enumeration of the bundled configurations in fresh '
-              'processes, differential across three ways of locating the data '
-              'and across relocated trees that differ from the bundled one',
+              'processes, differential across three ways of locating the data, '
+              'across relocated trees that differ from the bundled one, and '
+              'across repeated loads within one process',
     text='Each bundled library is loaded by name, by path and from a relocated '
          'copy (27 fresh processes); the complete content dumps must be '
          'identical; every group must evaluate to finite plain numbers for '
-         'every property it has data for across its range; every scheme '
+         'every property it has data for across its range - through '
+         'get_HoRT / get_SoR / get_CpoR in all three ways, and where the '
+         'library is found by name also through get_GoRT, get_H, get_S, get_G '
+         'and get_Cp on the same grid and through every call shape of the '
+         'eight entry points (16 unit strings x 6 presentations of S_elements) '
+         'at one temperature; every scheme '
          'fragment must be readable; remaps must be well-formed and '
          'chain-free; every uncertainty-basis descriptor must have data and '
          'the matrix must be square, symmetric, positive semi-definite and '
-         'sized to its basis. Nine further fresh processes select, through the '
+         'sized to its basis. Every one of the 27 processes then customises '
+         'the library object it got (Update(overwrite=True), correlation '
+         'update / set_range / del_*, attribute and table assignment, '
+         'replacing and deleting property sets and groups, adding a group, '
+         'editing the scheme remaps / patterns / descriptors and the '
+         'uncertainty block) and loads the same file again by name and by '
+         'path: both must show what the first load showed. Nine further fresh '
+         'processes select, through the '
          'override, a relocated tree that differs from the bundled one: every '
          'file a load reads carries its own marker (all must show up, by name '
          'and by path), the library is also present under three names the '
@@ -99,32 +166,60 @@ import numpy as np
 import pgradd.ThermoChem
 from pgradd.GroupAdd.Library import GroupLibrary
 name = %(name)r
+SHAPES_DEFAULT = %(shapes_default)r     # entry point -> [(label, units, how, value)]
+SHAPES_FULL = %(shapes_full)r
+NEEDS = %(needs)r                       # entry point -> (H, S, Cp, units kind, takes S_elements)
+BASIC = %(basic)r
+GROUP_KINDS = %(group_kinds)r
+LIBRARY_KINDS = %(library_kinds)r
+NEW_GROUP = %(new_group)r
+NEW_REMAP = %(new_remap)r
+LOADED = []                             # every library object obtained so far stays alive
 def plain(v):
     return isinstance(v, (int, float, np.floating, np.integer)) and not isinstance(v, bool) and math.isfinite(float(v))
+def invoke(k, entry, T, units, how, value):
+    f = getattr(k, entry)
+    args = (T,) if units is None else (T, units)
+    if how == 'absent':
+        return f(*args)
+    if how == 'kw':
+        return f(*args, S_elements=value)
+    return f(*(args + (value,)))
+def group_rec(ps):
+    rec = dict(sets=sorted(ps))
+    if 'thermochem' in ps:
+        k = ps['thermochem']
+        rng = k.get_range()
+        rec.update(T_ref=repr(k.T_ref), H=repr(k.ND_H_ref), S=repr(k.ND_S_ref),
+                   Cp=[(repr(T), repr(v)) for T, v in sorted(k.ND_Cp_data.items())],
+                   range=None if rng is None else [repr(rng[0]), repr(rng[1])],
+                   cls=type(k).__name__)
+        try:
+            rec['Hf'] = None if k.ND_H_ref is None else float(k.ND_H_ref)
+        except Exception:
+            rec['Hf'] = 'not-a-number'
+    return rec
 def dump(arg, with_evals):
+    # with_evals: 0 no evaluation, 1 the three plain entry points on the
+    # temperature grid, 2 in addition every other entry point on the grid in
+    # its default call shape and every call shape at one temperature
     out = dict(name=name, arg=arg)
     try:
         lib = GroupLibrary.Load(arg)
     except Exception as e:
         out['load_error'] = '%%s: %%s' %% (type(e).__name__, str(e)[:300])
+        LOADED.append(None)
         return out
+    LOADED.append(lib)
     out['path'] = lib.path
     groups = {}
     evals = []
     for g in lib:
         ps = lib[g]
-        rec = dict(sets=sorted(ps))
+        rec = group_rec(ps)
         if 'thermochem' in ps:
             k = ps['thermochem']
             rng = k.get_range()
-            rec.update(T_ref=repr(k.T_ref), H=repr(k.ND_H_ref), S=repr(k.ND_S_ref),
-                       Cp=[(repr(T), repr(v)) for T, v in sorted(k.ND_Cp_data.items())],
-                       range=None if rng is None else [repr(rng[0]), repr(rng[1])],
-                       cls=type(k).__name__)
-            try:
-                rec['Hf'] = None if k.ND_H_ref is None else float(k.ND_H_ref)
-            except Exception:
-                rec['Hf'] = 'not-a-number'
             knots = sorted(float(t) for t in k.ND_Cp_data)
             if rng is not None:
                 ts = {float(rng[0]), float(rng[1]), 0.5 * (float(rng[0]) + float(rng[1]))}
@@ -133,6 +228,7 @@ def dump(arg, with_evals):
                     ts.add(float(k.T_ref))
             else:
                 ts = set(knots) | ({float(k.T_ref)} if (not knots or knots[0] <= k.T_ref <= knots[-1]) else set())
+            have = (k.ND_H_ref is not None, k.ND_S_ref is not None, bool(k.ND_Cp_data))
             for prop, has in (('get_CpoR', bool(k.ND_Cp_data)), ('get_HoRT', k.ND_H_ref is not None),
                               ('get_SoR', k.ND_S_ref is not None)):
                 if not has or not with_evals:
@@ -144,6 +240,33 @@ def dump(arg, with_evals):
                         evals.append((str(g), prop, T, 'ok' if ok else 'not-plain-finite:%%r' %% (v,)))
                     except Exception as e:
                         evals.append((str(g), prop, T, 'raises:' + type(e).__name__))
+            if with_evals == 2 and ts:
+                def has_data(entry):
+                    n = NEEDS[entry]
+                    return all(h for h, need in zip(have, n[:3]) if need)
+                def one(entry, label, T, units, how, value):
+                    try:
+                        v = invoke(k, entry, T, units, how, value)
+                        evals.append((str(g), label, T, 'ok' if plain(v) else 'not-plain-finite:%%r' %% (v,)))
+                    except Exception as e:
+                        evals.append((str(g), label, T, 'raises:' + type(e).__name__))
+                # (a) every further entry point, default call shape, whole grid
+                for entry in sorted(NEEDS):
+                    if entry in BASIC or not has_data(entry):
+                        continue
+                    for label, units, how, value in SHAPES_DEFAULT[entry]:
+                        for T in sorted(ts):
+                            one(entry, label, T, units, how, value)
+                # (b) every call shape of every entry point at one temperature
+                T1 = float(k.T_ref) if float(k.T_ref) in ts else min(ts)
+                for entry in sorted(NEEDS):
+                    if not has_data(entry):
+                        continue
+                    default = [s[0] for s in SHAPES_DEFAULT[entry]]
+                    for label, units, how, value in SHAPES_FULL[entry]:
+                        if label in default:
+                            continue       # walked above on the whole grid
+                        one(entry, label, T1, units, how, value)
         groups[str(g)] = rec
     out['groups'] = groups
     out['evals'] = evals
@@ -160,21 +283,164 @@ def dump(arg, with_evals):
                          dof=uq['dof'], rmse=sorted(uq['RMSE']))
         out['uq_basis_with_data'] = [bool('thermochem' in lib[x]) for x in uq['descriptors']]
     return out
-# the loads of one process, in the order given (the data directory is
-# resolved by the first and remembered for the others)
-outs = [dump(arg, with_evals) for arg, with_evals in %(jobs)r]
+def customise(index):
+    # change, through every route a caller has, the library object that load
+    # number `index` of this process returned; report per group / per
+    # library-level kind whether the object now shows the change
+    from pgradd.ThermoChem import ThermochemGroup
+    from pgradd.GroupAdd.Group import Group
+    lib = LOADED[index]
+    out = dict(customised=index, groups=[], library=[])
+    if lib is None:
+        out['skipped'] = 'that load failed'
+        return out
+    def other(k):
+        return ThermochemGroup(ND_H_ref=-7.25, ND_S_ref=3.5, T_ref=k.T_ref)
+    def apply(kind, g):
+        ps = lib[g]
+        k = ps['thermochem']
+        if kind == 'Library.Update':
+            lib.Update(GroupLibrary(lib.scheme, {g: {'thermochem': other(k)}}), overwrite=True)
+        elif kind == 'correlation.update':
+            k.update(other(k), overwrite=True)
+        elif kind == 'set_range':
+            rng = k.get_range()
+            k.set_range((250.0, 350.0) if rng is None else (rng[0] / 2.0, rng[1] + 1.0))
+        elif kind == 'del_ND_H_ref':
+            if k.ND_H_ref is None:
+                raise LookupError('nothing to delete')
+            k.del_ND_H_ref()
+        elif kind == 'del_ND_S_ref':
+            if k.ND_S_ref is None:
+                raise LookupError('nothing to delete')
+            k.del_ND_S_ref()
+        elif kind == 'del_ND_Cp':
+            if not k.ND_Cp_data:
+                raise LookupError('nothing to delete')
+            k.del_ND_Cp(sorted(k.ND_Cp_data)[0])
+        elif kind == 'assign-attributes':
+            k.ND_H_ref = -7.25
+            k.ND_S_ref = 3.5
+            k.T_ref = k.T_ref + 1.0
+        elif kind == 'Cp-table-item':
+            k.ND_Cp_data[1234.5] = 9.0
+        elif kind == 'replace-correlation':
+            ps['thermochem'] = other(k)
+        elif kind == 'delete-property-set':
+            del ps['thermochem']
+        elif kind == 'delete-group':
+            del lib.contents[g]
+        else:
+            raise AssertionError(kind)
+    todo = sorted((g for g in lib if 'thermochem' in lib[g]), key=str)
+    for i, g in enumerate(todo):
+        before = group_rec(lib[g])
+        done = None
+        for j in range(len(GROUP_KINDS)):
+            kind = GROUP_KINDS[(i + j) %% len(GROUP_KINDS)]
+            try:
+                apply(kind, g)
+                done = kind
+                break
+            except Exception:
+                continue
+        try:
+            after = group_rec(lib[g]) if g in lib.contents else 'absent'
+        except Exception:
+            after = 'cannot be dumped any more'
+        out['groups'].append((str(g), done, after != before))
+    def lib_level(kind):
+        sch, uq = lib.scheme, lib.uq_contents
+        if kind == 'add-group':
+            g = Group.parse(sch, NEW_GROUP)
+            lib.Update(GroupLibrary(sch, {g: {'thermochem': ThermochemGroup(
+                ND_H_ref=1.0, ND_S_ref=1.0, T_ref=300.0)}}))
+            return g in lib.contents
+        if kind == 'scheme-add-remap':
+            sch.remaps[NEW_REMAP] = [[1, NEW_GROUP]]
+            return NEW_REMAP in sch.remaps
+        if kind == 'scheme-extend-remap':
+            if not sch.remaps:
+                return None
+            first = sorted(sch.remaps, key=str)[0]
+            n = len(sch.remaps[first])
+            sch.remaps[first].append([1, NEW_GROUP])
+            return len(sch.remaps[first]) == n + 1
+        if kind == 'scheme-drop-pattern':
+            n = len(sch.patterns)
+            sch.patterns.pop()
+            return len(sch.patterns) == n - 1
+        if kind == 'scheme-drop-descriptor':
+            if not sch.other_descriptors:
+                return None
+            n = len(sch.other_descriptors)
+            sch.other_descriptors.pop()
+            return len(sch.other_descriptors) == n - 1
+        if not uq:
+            return None
+        if kind == 'uq-matrix-entry':
+            x = float(uq['mat'][0, 0])
+            uq['mat'][0, 0] += 1.0
+            return float(uq['mat'][0, 0]) != x
+        if kind == 'uq-basis-order':
+            x = list(uq['descriptors'])
+            uq['descriptors'].reverse()
+            return list(uq['descriptors']) != x
+        if kind == 'uq-dof':
+            x = uq['dof']
+            uq['dof'] += 1
+            return uq['dof'] != x
+        raise AssertionError(kind)
+    for kind in LIBRARY_KINDS:
+        try:
+            out['library'].append((kind, lib_level(kind)))
+        except Exception as e:
+            out['library'].append((kind, 'raises %%s: %%s' %% (type(e).__name__, str(e)[:200])))
+    return out
+# the steps of one process, in the order given (the data directory is
+# resolved by the first load and remembered for the others)
+outs = []
+for job in %(jobs)r:
+    if job[0] == 'load':
+        # frozen at once: what is reported must not alias objects that a
+        # later step changes
+        outs.append(json.loads(json.dumps(dump(job[1], job[2]))))
+    else:
+        try:
+            outs.append(customise(job[1]))
+        except Exception as e:
+            outs.append(dict(skipped='customising raised %%s: %%s' %% (type(e).__name__, str(e)[:300])))
 real.write(json.dumps(outs)); real.flush(); os._exit(0)
 '''
 
 
+def _child_tables():
+    needs = dict(w4.ENTRY_POINTS)
+    return dict(
+        shapes_default=dict((e, w4.call_shapes(e, False)) for e in needs),
+        shapes_full=dict((e, w4.call_shapes(e, True)) for e in needs),
+        needs=needs, basic=tuple(w4.BASIC),
+        group_kinds=[k for k, _ in w4.GROUP_CUSTOMISATIONS],
+        library_kinds=[k for k, _ in w4.LIBRARY_CUSTOMISATIONS],
+        new_group=w4.NEW_GROUP, new_remap=w4.NEW_REMAP)
+
+
 def children(name, jobs, data_dir_override=None):
-    # One fresh process; `jobs` = [(argument of GroupLibrary.Load, evaluate
-    # every group?)] executed in that order.  Returns one dump per job.
+    # One fresh process; `jobs` = steps executed in that order, each either
+    #   (argument of GroupLibrary.Load, evaluation level 0/1/2)    a load, or
+    #   ('customise', i)      change the object load number i returned.
+    # Returns one dump per step.
     env = dict(os.environ)
     env.pop('pgradd_DATA_DIR', None)
     if data_dir_override is not None:
         env['pgradd_DATA_DIR'] = data_dir_override
-    code = CHILD % dict(repo=REPO, name=name, jobs=[(a, bool(e)) for a, e in jobs])
+    steps = []
+    for a, e in jobs:
+        if a == 'customise':
+            steps.append(('customise', int(e)))
+        else:
+            steps.append(('load', a, int(e)))
+    code = CHILD % dict(_child_tables(), repo=REPO, name=name, jobs=steps)
     p = subprocess.run([sys.executable, '-c', code], env=env, stdout=subprocess.PIPE,
                        stderr=subprocess.PIPE, timeout=900)
     try:
@@ -188,14 +454,21 @@ def children(name, jobs, data_dir_override=None):
 
 
 def child(name, way, relocated_dir=None):
+    """The fresh process of one (library, way): the load that is judged (with
+    every evaluation), then the history `customise what that load returned,
+    load the same file again by name and by explicit path`."""
+    bundled = os.path.join(libs.data_dir(), name, 'library.yaml')
     if way == 'name':
-        arg = name
+        arg, again_path = name, bundled
     elif way == 'path':
-        arg = os.path.join(libs.data_dir(), name, 'library.yaml')
+        arg, again_path = bundled, bundled
     else:
-        arg = name
-    return children(name, [(arg, True)],
-                    relocated_dir if way == 'relocated' else None)[0]
+        arg, again_path = name, os.path.join(relocated_dir, name, 'library.yaml')
+    # all eight entry points in all call shapes where the library is found by
+    # name; the three plain ones in the two other ways (as before)
+    jobs = [(arg, 2 if way == 'name' else 1), ('customise', 0),
+            (name, 0), (again_path, 0)]
+    return children(name, jobs, relocated_dir if way == 'relocated' else None)
 
 
 def identity(name):
@@ -235,6 +508,72 @@ def raw_expectation(path, seen=None):
     return groups, uq
 
 
+def judge_history(R, name, way, first, custom, again_name, again_path):
+    """One process: `first` = the load that was judged; then the object it
+    returned was customised (report `custom`); then the same file was loaded
+    again by name and by explicit path.  Both later loads must show the
+    contents the first load showed before it was customised."""
+    hist = ['Load(%r)' % first.get('arg'), 'customise that object (all kinds)']
+    if 'load_error' in custom or custom.get('skipped'):
+        R.outcomes['history:not-run'] += 1
+        R.notes.append('%s (%s): history not run: %s' % (
+            name, way, custom.get('load_error') or custom.get('skipped')))
+        return
+    # harness self-check: which customisations changed the object they were
+    # applied to (a customisation without effect proves nothing)
+    for g, kind, changed in custom['groups']:
+        R.evals += 1
+        R.nontrivial += 1
+        if kind is not None and changed:
+            R.outcomes['history:customised:' + kind] += 1
+        else:
+            R.outcomes['history:customisation-without-effect'] += 1
+            R.notes.append('%s (%s): customisation %r of %s had no effect' % (
+                name, way, kind, g))
+    for kind, res in custom['library']:
+        R.evals += 1
+        R.nontrivial += 1
+        if res is True:
+            R.outcomes['history:customised:' + kind] += 1
+        elif res is None:
+            R.outcomes['history:not-applicable:' + kind] += 1
+        else:
+            R.outcomes['history:customisation-without-effect'] += 1
+            R.notes.append('%s (%s): library-level customisation %r: %r' % (
+                name, way, kind, res))
+    for label, d in (('name', again_name), ('path', again_path)):
+        wit = dict(kind='lib', lib=name, way=way,
+                   history=hist + ['Load(%r)' % d.get('arg')])
+        R.evals += 1
+        R.nontrivial += 1
+        if 'load_error' in d:
+            R.outcomes['history:reload-failed'] += 1
+            R.violation('reload-after-customisation-failed:%s' % label,
+                        '%s: in the process that first loaded it by %s and then '
+                        'customised the object it got, loading it again by %s '
+                        'failed: %s' % (name, way, label, d['load_error']), wit)
+            continue
+        R.outcomes['history:reloaded:' + label] += 1
+        for key in CONTENT_KEYS:
+            R.evals += 1
+            R.nontrivial += 1
+            if d.get(key) != first.get(key):
+                diff = ''
+                if key == 'groups':
+                    ks = sorted(set(d['groups']) ^ set(first['groups'])) or \
+                        [g for g in first['groups']
+                         if first['groups'][g] != d['groups'].get(g)]
+                    diff = ' (%d groups differ, first: %s)' % (len(ks), ks[:2])
+                R.outcomes['history:contents-differ'] += 1
+                R.violation('reload-after-customisation-differs:%s' % key,
+                            '%s: loaded by %s, the returned object customised, then '
+                            'Load(%r) in the same process: %s is not what the '
+                            'first load showed%s' % (name, way, d.get('arg'), key, diff),
+                            wit)
+            else:
+                R.outcomes['history:contents-identical'] += 1
+
+
 def run_library(R, name):
     import yaml
     tmp = tempfile.mkdtemp(prefix='pgv_c14_')
@@ -243,7 +582,7 @@ def run_library(R, name):
         shutil.copytree(libs.data_dir(), reloc)
         dumps = {}
         for way in WAYS:
-            d = child(name, way, reloc)
+            d, custom, again_name, again_path = child(name, way, reloc)
             dumps[way] = d
             wit = dict(kind='lib', lib=name, way=way)
             R.evals += 1
@@ -260,15 +599,18 @@ def run_library(R, name):
                             'loaded from %s' % (name, reloc, d['path']), wit)
             for g, prop, T, res in d['evals']:
                 R.evals += 1
-                if way != 'name':
+                if way != 'name' or prop not in w4.BASIC:
                     R.nontrivial += 1
+                if prop not in w4.BASIC:
+                    R.extra['entry_point_evaluations'] += 1
                 if res == 'ok':
                     R.outcomes['eval:finite'] += 1
                 else:
                     R.outcomes['eval:' + res.split(':')[0]] += 1
-                    R.violation('eval:%s:%s' % (res.split(':')[0], prop),
-                                '%s[%s].%s(%r) -> %s' % (name, g, prop, T, res),
+                    R.violation('eval:%s:%s' % (res.split(':')[0], prop.split('(')[0]),
+                                '%s[%s].%s at T=%r -> %s' % (name, g, prop, T, res),
                                 dict(wit, group=g))
+            judge_history(R, name, way, d, custom, again_name, again_path)
         ok = [w for w in WAYS if 'load_error' not in dumps[w]]
         for w in ok[1:]:
             a, b = dumps[ok[0]], dumps[w]
@@ -400,10 +742,6 @@ def run_library(R, name):
                         R.outcomes['uq:consistent'] += 1
     finally:
         shutil.rmtree(tmp, ignore_errors=True)
-
-
-CONTENT_KEYS = ('groups', 'n_patterns', 'n_descriptors', 'pattern_names',
-                'remaps', 'uq')
 
 
 def run_variants(R, name):
